@@ -1091,7 +1091,7 @@ void body()
         "buf/move_assign", "buf/to_raw_vector/empty-read-area", "buf/to_raw_vector/no-write-area",
         "buf/to_raw_vector/with-write-area", "read_chars/enough", "read_chars/too-few"})
     vf::require_bucket(b);
-  std::uint64_t hist = vf::tier<std::uint64_t>(24000, 2000000);
+  std::uint64_t hist = vf::tier<std::uint64_t>(24000, 8000000);
   if (vf::has_extra("--small")) // the memcheck pass (valgrind is 20-50x slower)
     hist = 60000;
   rv_histories<int>(hist);
